@@ -77,25 +77,13 @@ func (sp *SolverPool) solveOne(ts *TermStore, o *Obligation, timeout float64, fa
 	sp.seq++
 	id := sp.seq
 	sp.mu.Unlock()
-	asserts := []*Term{o.Hyp}
-	comments := []string{"path condition / hypotheses"}
-	if o.WantSat {
-		// vacuity guard: satisfiability of the quantifier-free part of the hypotheses (a weaker formula:
-		// UNSAT here proves vacuity, SAT is the expected answer)
-		asserts = []*Term{ts.dropQuantified(o.Hyp)}
-		comments = []string{"quantifier-free part of the hypotheses (cover: must be sat)"}
-	}
-	if !o.WantSat {
-		asserts = append(asserts, ts.Not(o.Goal))
-		comments = append(comments, "negated goal: "+o.Desc)
-	}
 	mkq := func(cvc bool) string {
-		sp.mu.Lock() // term store is not thread safe for printing with interning of Not()
-		defer sp.mu.Unlock()
-		return ts.Query(asserts, QueryOpts{CVC5: cvc, Comments: comments, GetValues: o.Vals, NoQuantAxioms: o.WantSat})
+		if cvc {
+			return o.queryCVC
+		}
+		return o.Query
 	}
 	qz := mkq(false)
-	o.Query = qz
 	if len(qz) > 4<<20 {
 		o.Status, o.Solver = "unknown", "none (query larger than 4 MB)"
 		return
@@ -124,9 +112,33 @@ func (sp *SolverPool) solveOne(ts *TermStore, o *Obligation, timeout float64, fa
 		case !o.WantSat && r.answer == "sat":
 			o.Status = "failed"
 			o.Model = r.output
+			if o.queryPrefer != "" {
+				// any model is a counterexample: ask for one the replay harness can build
+				fp := filepath.Join(sp.Dir, fmt.Sprintf("q%06d.prefer.smt2", id))
+				os.WriteFile(fp, []byte(o.queryPrefer), 0o644)
+				ctxp, cancelp := context.WithTimeout(context.Background(), 8*time.Second)
+				rp := runSolver(ctxp, solverDefs(6)[0], fp)
+				cancelp()
+				os.Remove(fp)
+				if rp.answer == "sat" {
+					o.Model = rp.output
+				}
+			}
 		default:
 			o.Status = "unknown"
 			o.Model = r.output
+			if o.queryQF != "" {
+				fq := filepath.Join(sp.Dir, fmt.Sprintf("q%06d.qf.smt2", id))
+				os.WriteFile(fq, []byte(o.queryQF), 0o644)
+				ctxq, cancelq := context.WithTimeout(context.Background(), 8*time.Second)
+				rq := runSolver(ctxq, solverDefs(6)[0], fq)
+				cancelq()
+				os.Remove(fq)
+				if rq.answer == "sat" {
+					o.Model = rq.output
+					o.Candidate = true
+				}
+			}
 		}
 		sp.mu.Lock()
 		st := sp.Stats[r.solver]
@@ -220,6 +232,31 @@ func (sp *SolverPool) Discharge(ts *TermStore, obls []*Obligation, timeout float
 		if !o.WantSat && (isTrue(o.Goal) || isFalse(o.Hyp)) {
 			o.Status, o.Solver = "proved", "govc-simplifier"
 			continue
+		}
+		// queries are rendered here, sequentially: the term store is not safe for concurrent use
+		asserts := []*Term{o.Hyp}
+		comments := []string{"path condition / hypotheses"}
+		if o.WantSat {
+			// vacuity guard: satisfiability of the quantifier-free part of the hypotheses (a weaker formula:
+			// UNSAT here proves vacuity, SAT is the expected answer)
+			asserts = []*Term{ts.dropQuantified(o.Hyp)}
+			comments = []string{"quantifier-free part of the hypotheses (cover: must be sat)"}
+		} else {
+			asserts = append(asserts, ts.Not(o.Goal))
+			comments = append(comments, "negated goal: "+o.Desc)
+		}
+		o.Query = ts.Query(asserts, QueryOpts{Comments: comments, GetValues: o.Vals, NoQuantAxioms: o.WantSat})
+		o.queryCVC = ts.Query(asserts, QueryOpts{CVC5: true, Comments: comments, GetValues: o.Vals, NoQuantAxioms: o.WantSat})
+		if len(o.Vals) > 0 && !o.WantSat {
+			// candidate counterexample when the full query stays undecided: quantified hypotheses dropped
+			// (a weaker hypothesis set, so the model may be spurious: it counts only if it replays on the real code)
+			qa := []*Term{ts.dropQuantified(o.Hyp), ts.Not(o.Goal)}
+			qa = append(qa, o.Prefer...)
+			o.queryQF = ts.Query(qa, QueryOpts{Comments: []string{"quantifier-free part of the hypotheses", "negated goal"}, GetValues: o.Vals, NoQuantAxioms: true})
+		}
+		if len(o.Prefer) > 0 && !o.WantSat {
+			pa := append(append([]*Term{}, asserts...), o.Prefer...)
+			o.queryPrefer = ts.Query(pa, QueryOpts{Comments: append(comments, "replay-friendly model preference"), GetValues: o.Vals})
 		}
 		o := o
 		wg.Add(1)
